@@ -510,7 +510,9 @@ where
             // set yield_memory to the sentinel value O+2 so that the next step() call
             // will yield the value in self.state (the bdf step that was within
             // tolerance after these runge-kutta steps)
-            if self.yield_memory == 0 {
+            // (unless the state still is that last runge-kutta step, which happens when
+            // the start-up itself ran into the end of the interval)
+            if self.yield_memory == 0 && self.prev_values[get_item].0 < self.time.real() {
                 self.yield_memory = O + 2;
             }
             return Ok(self.prev_values[get_item].clone());
@@ -529,6 +531,13 @@ where
             return Ok((self.time.real(), self.state.clone()));
         }
 
+        // The start-up ran up to (or to within one step of) the end of the interval, so no
+        // bdf step will follow to check it against: commit the runge-kutta steps as they are.
+        if self.yield_memory == O + 1 && self.time.real() + self.dt.real() >= self.end.real() {
+            self.yield_memory -= 1;
+            return Err(IVPStatus::Redo);
+        }
+
         if self.time.real() >= self.end.real() {
             return Err(IVPStatus::Done);
         }
@@ -536,15 +545,25 @@ where
         if self.time.real() + self.dt.real() >= self.end.real() {
             self.dt = self.end - self.time;
             self.runge_kutta(1)?;
+            // time + (end - time) does not always round to end
+            self.time = self.end;
             return Ok((self.time.real(), self.prev_values.back().unwrap().1.clone()));
         }
 
         if self.prev_values.is_empty() {
             self.save_state = self.state.clone();
-            if self.time.real() + self.dt.real() * self.order.real() >= self.end.real() {
+            let shortened =
+                self.time.real() + self.dt.real() * self.order.real() >= self.end.real();
+            if shortened {
                 self.dt = (self.end - self.time) / self.order;
             }
             self.runge_kutta(O)?;
+            if shortened {
+                self.time = self.end;
+                if let Some(last) = self.prev_values.back_mut() {
+                    last.0 = self.end.real();
+                }
+            }
             self.yield_memory = O + 1;
 
             return Err(IVPStatus::Redo);
